@@ -39,6 +39,10 @@ pub mod iface {
         // names that do not survive snake -> UpperCamel -> snake: the wire name is serde's (`stage2_poke`, `peek_a_b`)
         #[sv::msg(exec)]
         fn stage_2_poke(&self, ctx: ExecCtx, n: u32) -> Result<Response, Self::Error>;
+        // ten same-typed arguments: two-digit positions (a permutation of the arguments would still compile)
+        #[sv::msg(exec)]
+        #[allow(clippy::too_many_arguments)]
+        fn wide_poke(&self, ctx: ExecCtx, p1: u32, p2: u32, p3: u32, p4: u32, p5: u32, p6: u32, p7: u32, p8: u32, p9: u32, p10: u32) -> Result<Response, Self::Error>;
         #[sv::msg(query)]
         fn peek_a_b(&self, ctx: QueryCtx, idx: u32) -> Result<Echo, Self::Error>;
         #[sv::msg(query)]
@@ -102,6 +106,11 @@ pub mod contract {
         pub fn foo1_bar(&self, ctx: ExecCtx, a: u64, b: u64) -> StdResult<Response> {
             echo("foo1_bar", vec![js(&a), js(&b)], &ctx)
         }
+        #[sv::msg(exec)]
+        #[allow(clippy::too_many_arguments)]
+        pub fn wide(&self, ctx: ExecCtx, w1: u32, w2: u32, w3: u32, w4: u32, w5: u32, w6: u32, w7: u32, w8: u32, w9: u32, w10: u32, w11: u32) -> StdResult<Response> {
+            echo("wide", vec![js(&w1), js(&w2), js(&w3), js(&w4), js(&w5), js(&w6), js(&w7), js(&w8), js(&w9), js(&w10), js(&w11)], &ctx)
+        }
         #[sv::msg(query)]
         pub fn value(&self, _ctx: QueryCtx) -> StdResult<Echo> {
             Ok(Echo { handler: "value".into(), args: vec![] })
@@ -125,6 +134,9 @@ pub mod contract {
         }
         fn stage_2_poke(&self, ctx: ExecCtx, n: u32) -> StdResult<Response> {
             echo("stage_2_poke", vec![js(&n)], &ctx)
+        }
+        fn wide_poke(&self, ctx: ExecCtx, p1: u32, p2: u32, p3: u32, p4: u32, p5: u32, p6: u32, p7: u32, p8: u32, p9: u32, p10: u32) -> StdResult<Response> {
+            echo("wide_poke", vec![js(&p1), js(&p2), js(&p3), js(&p4), js(&p5), js(&p6), js(&p7), js(&p8), js(&p9), js(&p10)], &ctx)
         }
         fn peek_a_b(&self, _ctx: QueryCtx, idx: u32) -> StdResult<Echo> {
             Ok(Echo { handler: "peek_a_b".into(), args: vec![js(&idx)] })
@@ -180,6 +192,7 @@ fn remote_exec(v: &Value) -> Value {
                 "bump" => b.bump(n(0) as u32, args[1].as_str().map(|x| x.to_string())).map(|r| r.build()).map_err(|e| e.to_string()),
                 "set_owner" => b.set_owner(s(0)).map(|r| r.build()).map_err(|e| e.to_string()),
                 "foo1_bar" => b.foo_1_bar(n(0), n(1)).map(|r| r.build()).map_err(|e| e.to_string()),
+                "wide" => b.wide(n(0) as u32, n(1) as u32, n(2) as u32, n(3) as u32, n(4) as u32, n(5) as u32, n(6) as u32, n(7) as u32, n(8) as u32, n(9) as u32, n(10) as u32).map(|r| r.build()).map_err(|e| e.to_string()),
                 _ => Err("no such method".into()),
             }
         }
@@ -195,6 +208,7 @@ fn remote_exec(v: &Value) -> Value {
                 "poke" => b.poke(n(0) as u32).map(|r| r.build()).map_err(|e| e.to_string()),
                 "poke2" => b.poke_2(s(0), s(1)).map(|r| r.build()).map_err(|e| e.to_string()),
                 "stage_2_poke" => b.stage_2_poke(n(0) as u32).map(|r| r.build()).map_err(|e| e.to_string()),
+                "wide_poke" => b.wide_poke(n(0) as u32, n(1) as u32, n(2) as u32, n(3) as u32, n(4) as u32, n(5) as u32, n(6) as u32, n(7) as u32, n(8) as u32, n(9) as u32).map(|r| r.build()).map_err(|e| e.to_string()),
                 _ => Err("no such method".into()),
             }
         }
@@ -209,6 +223,7 @@ fn remote_exec(v: &Value) -> Value {
                 "poke" => b.poke(n(0) as u32).map(|r| r.build()).map_err(|e| e.to_string()),
                 "poke2" => b.poke_2(s(0), s(1)).map(|r| r.build()).map_err(|e| e.to_string()),
                 "stage_2_poke" => b.stage_2_poke(n(0) as u32).map(|r| r.build()).map_err(|e| e.to_string()),
+                "wide_poke" => b.wide_poke(n(0) as u32, n(1) as u32, n(2) as u32, n(3) as u32, n(4) as u32, n(5) as u32, n(6) as u32, n(7) as u32, n(8) as u32, n(9) as u32).map(|r| r.build()).map_err(|e| e.to_string()),
                 _ => Err("no such method".into()),
             }
         }
